@@ -18,6 +18,9 @@ FieldSpecs == { F(g, j, a) : g \in GoTypes, j \in JsonTags, a \in ApiTags }
 VARIABLE sh
 Init == \/ \E v \in IdVariants : sh = [id |-> v, fields |-> <<>>]
         \/ \E v \in IdVariants, f \in FieldSpecs : sh = [id |-> v, fields |-> <<f>>]
+        \* two relationship fields in both orders (the second one must not inherit anything from the first)
+        \/ \E g1 \in {"string", "[]string"}, g2 \in {"string", "[]string"}, a1 \in {"rel,tt", "rel,tt,inv"}, a2 \in {"rel,tt", "attr"} :
+              sh = [id |-> "ok", fields |-> <<F(g1, "a", a1), F(g2, "b", a2)>>]
         \/ (Pairs /\ \E f \in FieldSpecs, g \in FieldSpecs :
               (f.api # "" /\ g.api # "" /\ f.json \in {"a", ""} /\ g.gotype \in {"string", "[]string", "*int"}) /\
               sh = [id |-> "ok", fields |-> <<f, g>>])
